@@ -308,10 +308,16 @@ Fixpoint multi_rows (p0 : pset) (cols : list col) (rows : list pset) (cs : calls
 Definition multi_exec (cols : list col) (rows : list pset) (cs : calls) : list pset * calls + merr :=
   match rows with
   | [] => inl ([], cs)
-  | p0 :: _ => match multi_check p0 O cols rows with
-               | Some e => inr e
-               | None => inl (multi_rows p0 cols rows cs)
-               end
+  | p0 :: _ =>
+      if forallb (fun c => negb (in_values0 p0 c)) cols then
+        (* row 0 names no column and no column has a Python / SQL default: the VALUES list is empty and the
+           compiler emits a single-row INSERT ... DEFAULT VALUES - the later rows are not part of it *)
+        inl ([fst (multi_row p0 cols p0 cs)], cs)
+      else
+      match multi_check p0 O cols rows with
+      | Some e => inr e
+      | None => inl (multi_rows p0 cols rows cs)
+      end
   end.
 (* how often the callable of column [c] must be called: once per row that omits the column *)
 Definition omitting (c : col) (rows : list pset) : nat := length (filter (fun row => negb (has (ckey c) row)) rows).
